@@ -23,7 +23,7 @@ ATTRS = {
 }
 KIDS = {'call': '{{f1(20)}}', 'mem': '{{v1.k}}', 'call2': '{{f1(21)}}', 'text': 'txt', 'el': '<b x={{f1(22)}}>{{v2.y}}</b>', 'comp': '<C1 p={{f1(23)}}>{{v3.z}}</C1>', 'spread': '{{...f1(24)}}',
         'id': '{{v1}}', 'arrow': '{{() => f1(25)}}', 'cond': '{{v1 ? f1(26) : f1(27)}}', 'frag': '<>{{f1(28)}}</>'}
-HOSTS = {'div': 'div', 'input': 'input', 'Foo': 'Foo', 'C1': 'C1', 'mem': 'v4.Cmp', 'KeepAlive': 'KeepAlive'}
+HOSTS = {'div': 'div', 'input': 'input', 'Foo': 'Foo', 'C1': 'C1', 'mem': 'v4.Cmp', 'memtag': 'v4.section', 'KeepAlive': 'KeepAlive'}
 
 
 def make_skeleton(spec):
